@@ -15,7 +15,7 @@ import (
 var vCrashedLog *vAbsLog
 
 func vOpenValue(dir, ext string) (*value, error) {
-	d := vDisk[ext]
+	d := vDisk[vKey(dir, ext)]
 	if d == nil {
 		return &value{dir: dir, ext: ext}, nil
 	}
